@@ -400,7 +400,8 @@ def gen_hand_client(r, *, hmax=8, wmax=8, allow_stochastic=True, deterministic_o
             unique, wkw['unique'] = None, None
             world = mk()
             pool = [mk() for _ in pool]
-    if n_pool and r.random() < 0.35:
+    near_dup = bool(n_pool) and r.random() < 0.35
+    if near_dup:
         # near-duplicate states: equal up to one detail (box content, door status, colour, held item, heading)
         for src in r.sample([world] + pool, min(2, 1 + len(pool))):
             pool.append(near_duplicate(r, src, types, colors, unique, beacon))
@@ -425,6 +426,7 @@ def gen_hand_client(r, *, hmax=8, wmax=8, allow_stochastic=True, deterministic_o
     if len(chain) >= 2 and r.random() < 0.15:
         i = r.randrange(len(chain) - 1)
         spec['nest'] = [i, r.randint(i + 1, len(chain))]
+    spec['knobs'] = [k for k, on in (('view_covers_grid', align), ('long_strip', strip), ('near_duplicate_states', near_dup), ('nested_chain', 'nest' in spec)) if on]
     return spec
 
 
@@ -466,6 +468,7 @@ def gen_reset_client(r, name=None, *, random_composition=True, stochastic_obs=Tr
         'kind': 'hand', 'reset': reset, 'world': None, 'pool_worlds': [], 'chain': chain, 'rewards': rewards, 'term': term, 'obs': obs,
         'actions': actions, 'types': list(BUILTIN_TYPES), 'colors': ['NONE', 'RED', 'GREEN', 'BLUE', 'YELLOW'],
         'unique': unique, 'beacon': memory, 'via_factory': r.random() < 0.5, 'env_seed': r.randrange(2**31),
+        'knobs': ['composition_around_builtin_reset'] if random_composition else [],
     }
 
 
